@@ -70,6 +70,7 @@ type VMOpts struct {
 	CurrentYear bool
 	Loc         *time.Location
 	HardCrash   bool
+	LogErrors   bool // the binary's -vm_logs_runtime_errors default
 }
 
 // Load compiles src and creates a VM. The caller should Close() it.
@@ -81,7 +82,7 @@ func Load(name, src string, vo VMOpts, opts ...compiler.Option) (*Prog, error) {
 	if obj == nil {
 		return nil, fmt.Errorf("compile returned neither object nor error")
 	}
-	v := vm.New(name, obj, vo.CurrentYear, vo.Loc, false, false)
+	v := vm.New(name, obj, vo.CurrentYear, vo.Loc, vo.LogErrors, false)
 	v.HardCrash = vo.HardCrash
 	return &Prog{Name: name, Obj: obj, VM: v}, nil
 }
